@@ -83,12 +83,15 @@ func domainA(k *kindSpec, size int, thorough bool) *domA {
 	d := &domA{}
 	all := batchValuesA(size, thorough)
 	thrs := thresholdsA(size, thorough)
-	if !thorough || size > 8 {
+	if !thorough || size > 4 {
 		// one value per (type, planned count, "100%", beyond the size): the predicate sees a batch value only through these
 		all = distinctBatches(all, size)
 	}
-	d.batches, d.thrs0, d.thrs1, d.genThrs = all, thrs, []string{"", "1", "50%", "100%"}, []string{"", "50%"}
-	d.batches2, d.thrs2 = distinctBatches(all, size), []string{"", "1", "20%", "50%", "100%"}
+	if thorough && size > 12 {
+		thrs = dedupe(append(thresholdsA(size, false), "33%"))
+	}
+	d.batches, d.thrs0, d.thrs1, d.genThrs = all, thrs, []string{"", "50%", "100%"}, []string{"", "50%"}
+	d.batches2, d.thrs2 = distinctBatches(all, size), []string{"", "1", "50%"}
 	if !thorough {
 		d.thrs1 = []string{"", "50%"}
 		d.thrs2 = []string{"", "50%"}
@@ -318,11 +321,11 @@ func Run(r *lib.Report) {
 	defer debug.SetMemoryLimit(debug.SetMemoryLimit(6 << 30))
 	r.Rule = "Part A (readiness): for every control implementation K in {cloneset,statefulset,advstatefulset,daemonset,deployment}-partition, deployment-canary, {cloneset,deployment}-bluegreen: real Initialize, then for " +
 		"R in (quick 1..8,10,20,100 | thorough 1..16,20,50,100,150) x updated u in 0..R x updatedReady in 0..u x currentBatch in {0,1} x batch value in (percent 1,20,50,67,99,100,150 [thorough +10,25,33,34,75,90,200] and int 0,1,2,R/2,R-1,R,R+1,R+5 [thorough +3,R/3,2R/3,R-2]; " +
-		"quick and thorough R>8: one value per (type, planned count, is-100%, beyond-the-size)) x failureThreshold in {nil,0,1,20%,50%,100%,R [thorough +2,0%,1%,33%,R+5]} (currentBatch 1: quick nil,50% | thorough nil,1,50%,100%): " +
+		"quick and thorough R>4: one value per (type, planned count, is-100%, beyond-the-size)) x failureThreshold in {nil,0,1,20%,50%,100%,R [thorough +33%, and for R<=12 +2,0%,1%,R+5]} (currentBatch 1: quick nil,50% | thorough nil,50%,100%): " +
 		"the generated status (and, where the control counts pods, the matching pod set) is written to the store and the real EnsureBatchPodsReadyAndLabeled of a fresh control plane is called. " +
 		"R>16 is thinned to boundaries: u in {0,1,R-1,R, planned-1..planned+1 of every batch value}, updatedReady in {0,1,u-1,u, both sides of every planned-tolerance boundary}, batch values 20%,50%,100%,R/2,R,R+1,1%,67%,99%,1,R-1 (thorough: the distinct ones of the full list; controls that list all pods on every call: the first six [thorough: these eleven] and thresholds nil,1,20%,100% [thorough +0,50%]), currentBatch 1 with threshold nil [thorough +20%]. " +
 		"Additionally for currentBatch 0: generation not observed (workload; canary Deployment) x thresholds (quick nil | thorough nil,50%) with the real SyncWorkloadInformation gate evaluated first; " +
-		"rollout-id set, updatedReady in {0,u-1,u}, pod sets whose labelled count is 0, planned-1, planned (and 'no pod visible' for controls that read the status only) x distinct batch values x thresholds (quick nil,50% | thorough nil,1,20%,50%,100%; R>16: six batch values, currentBatch 0, updatedReady in {0,u}, threshold nil [thorough +20%]). " +
+		"rollout-id set, updatedReady in {0,u-1,u}, pod sets whose labelled count is 0, planned-1, planned (and 'no pod visible' for controls that read the status only) x distinct batch values x thresholds (quick nil,50% | thorough nil,1,50%; R>16: six batch values, currentBatch 0, updatedReady in {0,u}, threshold nil [thorough +20%]). " +
 		"Part B (finalisers): for every K, R in (quick 1..5 | thorough 1,2,3,4,5,8), batchPartition in {nil,0}, finalizingPolicy in {Immediate,WaitResume}: real Initialize + UpgradeBatch(100%), then Finalize is called 3 times in a row (fresh control plane each) with the workload status set before each attempt from " +
 		"{all updated+ready; all updated, k=1..R unready; u<R updated (old pods ready / old pods unready); blue-green: u new pods surged next to R old ones; status of a stale generation}: quick every (s1, s2, s2) and (s,s,s), thorough every triple. " +
 		"Non-trivial = cases in which the real code answered ready / nil or wrote to the store."
